@@ -20,6 +20,9 @@ class Field:
     _isFeField = True
     """marks the class for :mod:`._linalg`, which cannot import it without a cycle"""
 
+    __array_priority__ = 100
+    """plain arrays defer to the reflected operators below instead of wrapping the Field in an object array"""
+
     def __init__(
         self,
         groupElem: _GroupElem,
@@ -130,7 +133,7 @@ class Field:
         return self() @ other
 
     def __rmatmul__(self, other) -> FeArray.FeArrayALike:
-        return self.__matmul__(other)
+        return other @ self()
 
     def __add__(self, other) -> FeArray.FeArrayALike:
         return self() + other
@@ -142,13 +145,13 @@ class Field:
         return self() - other
 
     def __rsub__(self, other) -> FeArray.FeArrayALike:
-        return self.__sub__(other)
+        return other - self()
 
     def __truediv__(self, other) -> FeArray.FeArrayALike:
         return self() / other
 
     def __rtruediv__(self, other) -> FeArray.FeArrayALike:
-        return self.__truediv__(other)
+        return other / self()
 
     def __call__(self) -> FeArray.FeArrayALike:
         """Returns the field as a finite element array."""
